@@ -190,6 +190,42 @@ class Judge:
             o = o[:max(len(o) - 5, 0)]       # a BCJ decoder cannot know the last bytes of an unfinished payload yet
         return o, done, toks, r.status
 
+_WHERE = {"stream header": "stream_header", "block header / index": "boundary", "block header": "block_header",
+          "compressed data": "data", "block padding": "padding", "check": "check", "index": "index",
+          "index padding": "index", "index crc32": "index", "stream footer": "footer"}
+
+def position(judge, out):
+    """(number of complete format elements, element the output ends in) - by glue only."""
+    enc = judge.enc
+    if enc in ("stream", "mt"):
+        r = gxz.parse(out, concatenated=False)
+        toks = tokens_from_xz(r, enc)
+        if r.verdict == "ok":
+            return len(toks), "end"
+        if r.verdict != "truncated":
+            return len(toks), "error"
+        w = _WHERE.get(r.detail, "?")
+        if enc == "mt" and w in ("boundary", "block_header", "padding", "check"):
+            w = "data"
+        return len(toks), w
+    if judge.chain0["lz"] == "lzma1":
+        toks = judge.glue(out)[2]
+        return (len(toks), "end" if toks else "data") if toks is not None else (0, "error")
+    r = gl2.decode(out, judge.ds, collect=None)
+    toks = tokens_from_chunks(r.chunks)
+    if r.status == "need_more" or enc == "raw":
+        return len(toks), "data"
+    if r.status != "ok":
+        return len(toks), "error"
+    rest = len(out) - r.consumed
+    padn = (-r.consumed) % 4
+    csz = gcrc.check_size(judge.check)
+    if rest < padn:
+        return len(toks), "padding"
+    if rest < padn + csz:
+        return len(toks), "check"
+    return len(toks) + 1, "end"
+
 def _props_name(b):
     return PROPS_BYTE.get(b, "p?%s" % b)
 
@@ -254,8 +290,19 @@ def run_history(hist, rng, max_calls=400000):
     data = gen_data(rng, total, hist["data"])
     filters0 = chain_filters(chain0, lzopt)
     check = lz.CHECK_CRC32 if hist["check"] == "crc" else lz.CHECK_NONE
-    c = lz.Coder()
-    keep = [filters0]
+    # a failing lzma_allocator (only histories that ask for it: every allocation goes through Python)
+    import threading
+    ast = dict(mode=None, count=0, nopts=0, tid=threading.get_ident())
+    def fail_at(n):
+        if ast["mode"] is None or threading.get_ident() != ast["tid"]:
+            return False
+        ast["count"] += 1
+        return ast["mode"] == "copy" or ast["count"] > ast["nopts"]
+    wants_alloc = any(u.get("fail", "none") != "none" for o in hist["ops"]
+                      for u in ([o] if o["k"] == "update" else o.get("inject", [])))
+    alloc = lz.CountingAllocator(fail_at=fail_at) if wants_alloc else None
+    c = lz.Coder(allocator=alloc)
+    keep = [filters0, alloc]
     if enc == "stream":
         r = c.init("lzma_stream_encoder", filters0, check)
     elif enc == "mt":
@@ -285,14 +332,26 @@ def run_history(hist, rng, max_calls=400000):
     dead = False       # a fatal code was returned: no more judging of "continues normally"
     ended = False      # LZMA_FINISH has completed
     runaway = False
+    unrealised = 0
+    def do_update(u, mid):
+        f = chain_filters(u["target"], lzopt)
+        keep.append(f)
+        fm = u.get("fail", "none")
+        ntok, where = position(judge, ob.data(op))
+        ast["count"] = 0
+        ast["nopts"] = 1 + (1 if u["target"]["pre"] in ("delta", "armbad") else 0)
+        ast["mode"] = None if fm == "none" else fm
+        try:
+            ret = L.lzma_filters_update(C.byref(s), f)
+        finally:
+            ast["mode"] = None
+        events.append(dict(e="Update", target=u["target"], ret=lz.retname(ret), fail=fm, ntok=ntok))
+        obs_ops.append(dict(k="update", ret=lz.retname(ret), mid=mid, where=where, ntok=ntok))
     for o in hist["ops"]:
         if o["k"] == "update":
-            f = chain_filters(o["target"], lzopt)
-            keep.append(f)
-            ret = L.lzma_filters_update(C.byref(s), f)
-            events.append(dict(e="Update", target=o["target"], ret=lz.retname(ret)))
-            obs_ops.append(dict(k="update", ret=lz.retname(ret)))
+            do_update(o, False)
             continue
+        inject = list(o.get("inject", []))
         a = o["a"]; n = o["n"] * unit
         left = n
         ret = lz.OK
@@ -323,6 +382,14 @@ def run_history(hist, rng, max_calls=400000):
             events.append(dict(e="Ret", ret=lz.retname(ret), uin=uin, uout=uout, tin=s.total_in, tout=s.total_out))
             if ret != lz.OK or (a == "RUN" and left == 0):
                 break
+            # lzma_filters_update() between two calls of the unfinished operation, at the planned position
+            while inject:
+                ntok, where = position(judge, ob.data(op))
+                # same place: elements completed, element being written, input of the operation still unconsumed
+                if (ntok, where, left) != (inject[0]["ntok"], inject[0]["where"], inject[0]["during"]["left"] * unit):
+                    break
+                do_update(inject.pop(0), True)
+        unrealised += len(inject)
         if runaway:
             obs_ops.append(dict(k="op", a=a, ret="RUNAWAY", given=ip))
             break
@@ -361,7 +428,10 @@ def run_history(hist, rng, max_calls=400000):
     events.append(dict(e="Final", given=ip))
     events[0]["toks"] = g_toks
     c.end()
-    return dict(events=events, ops=obs_ops, problems=problems, out=out, data=data, toks=g_toks, ncalls=ncalls)
+    if alloc is not None and alloc.errors:
+        problems.append(("alloc:bad_free", "; ".join(alloc.errors[:3])))
+    return dict(events=events, ops=obs_ops, problems=problems, out=out, data=data, toks=g_toks, ncalls=ncalls,
+                unrealised=unrealised)
 
 # ------------------------------------------------------------------------------------------------ worker process
 def worker_main():
@@ -377,7 +447,7 @@ def worker_main():
         try:
             res = run_history(req["hist"], random.Random(req["seed"]))
             ans = dict(ok=True, hist=req["hist"], events=res["events"], ops=res["ops"],
-                       problems=res["problems"], toks=res["toks"], ncalls=res["ncalls"])
+                       problems=res["problems"], toks=res["toks"], ncalls=res["ncalls"], unrealised=res["unrealised"])
         except DriverError as e:
             ans = dict(ok=False, error=str(e), hist=req["hist"])
         out.write(json.dumps(ans) + "\n"); out.flush()
